@@ -248,6 +248,15 @@ func search(t *testing.T, e Engine, j *Job, res *Result, start time.Time) {
 		for _, f := range o.Violations {
 			if f.Property != j.Property {
 				res.Other[f.Property+"/"+f.Invariant]++
+				// keep the first cases of a violation that belongs to another
+				// property's check, for whoever looks into it
+				if res.Other[f.Property+"/"+f.Invariant] <= 2 && o.Case != nil {
+					rp := Replay{Property: f.Property, Engine: res.Engine, Invariant: f.Invariant, Signature: f.Signature, Message: f.Message, Seed: j.Seed, Trace: clip(o.Trace, 400)}
+					rp.Case, _ = json.Marshal(o.Case)
+					dir := filepath.Join(j.ReplayDir, "other")
+					_ = os.MkdirAll(dir, 0o755)
+					_ = SaveJSON(filepath.Join(dir, fmt.Sprintf("%s-%s-%d-w%d-r%d.json", f.Property, sanitize(f.Invariant), j.Seed, j.Worker, idx)), &rp)
+				}
 				continue
 			}
 			key := f.Invariant + "|" + f.Signature
